@@ -38,7 +38,9 @@ def either(a, b):
 
 
 def _gen_params(rng, method, like=None):
-    names = ["a", "b", "c"]
+    # (names as they occur in the wild: private-looking, dunder-prefixed (the pre-PEP 570 positional-only convention),
+    # trailing underscore, non-ASCII)
+    names = rng.choice([["a", "b", "c"], ["a", "b", "c"], ["a", "b", "c"], ["__a", "_b", "c_"], ["__x", "x", "é"]])
     if like is not None and rng.random() < 0.8:
         base = [p[0] for p in like if p[0] != "self"]
         if rng.random() < 0.3 and base:
